@@ -1,33 +1,16 @@
-# per-property configuration of bin/check
+# per-property configuration of bin/check: one JSON file per claimed property in registry.d/
+import glob, json, os
+_D = os.path.join(os.path.dirname(os.path.abspath(__file__)), "registry.d")
 COMMON_TRUST = [
     "Lean 4.33 kernel (thorough tier: re-checked by leanchecker); axioms allowed: propext, Classical.choice, Quot.sound",
     "statements in lean/HapVerif/Props/*.lean and Spec/oracle definitions in lean/HapVerif/Model/*.lean",
     "correspondence harness /verif/harness (generators, canonicalisation) and line-protocol driver lean/Driver/Main.lean + lean/HapVerif/Drv/*.lean",
     "go/ast fact extractor /verif/harness/cmd/extract -> lean/HapVerif/Generated/Facts.lean",
 ]
-
-REGISTRY = {
-    "C16": {
-        "level_text": "Theorems (Lean 4, kernel-checked) about an exact binary32 model of RebalanceWeight and the blue/green clamp: zero-iff for every weight vector/replica vector/initial weight, clamp range, regenerated constants; the model is tied to the Go function bit-exactly by a differential run (quick: ~41k inputs; thorough: exhaustive 2 groups x 0..256 x lengths 0..6 plus 200k random). The Spec (range, zero-iff, order, share) is also evaluated on every implementation output.",
-        "level_note": "Trusted: Lean kernel, f32 definition (round-to-nearest-even on rationals), harness, extractor. Int overflow excluded by assumption. Upper bound/order/share of the float model are searched, not yet proved (proved for exact arithmetic).",
-        "rule": "corpus of minimised past failures; exhaustive 2 groups x weights (quick: 20 representative values, thorough: 0..256) x lengths 0..3 (thorough 0..6) x 6 initial weights; then random 1..5 groups with coprime/large lengths from VERIF_SEED. non-trivial = RebalanceWeight did not return early (model output differs from the input weights); distinct = distinct input line",
-        "exhaustive": {"quick": False, "thorough": False},
-        "trusted": ["binary32 semantics as defined by HapVerif.C16.f32 (round to nearest even on rationals, normal range)"],
-        "modelled": ["Go int modelled as unbounded Int (assumes 256*lcm(lengths) < 2^63)", "float32 modelled exactly by f32; NaN/Inf of zero-length clusters modelled as 'unspecified' (never read by the callers)",
-                     "upper bound 256, order and share clauses are proved for the exact-arithmetic idealisation and only searched (oracle) for the binary32 model"],
-        "assumptions": ["no integer overflow in cl.Weight*lcmCount", "callers read the result only for clusters with Length>0 (gateway.go createBackend, backend.go buildBackendBlueGreenBalance)"],
-    },
-}
-
-REGISTRY["C13"] = {
-    "harness": {"kind": "gotest", "go": "go1.26.8", "pkg": "./c13sync", "bin": "c13.test", "run": "TestC13"},
-    "level_text": "Theorems (Lean 4, kernel-checked) over ALL arrival patterns of any length: per-kind spacing >= interval (reload and reconcile limiters), coalescing (never more runs than notifications; an arrival while pending is a no-op), liveness (every notification is followed by a run within wait-before-update or exactly one interval after an actual earlier run). The model (limiter functions + 'earliest deadline per item' delaying queue) is tied to the real limiters and the real work queue by a differential run under testing/synctest (virtual clock, exact timestamps): exhaustive subsets of a 12-point grid around the interval boundary plus random bursts/gaps; the Spec is also evaluated on the observed timestamps.",
-    "level_note": "Trusted: Lean kernel, harness, client-go delaying queue modelled as 'earliest deadline per item, de-duplicated' (validated by the differential run, not proved). Not modelled: scheduling latency, run duration, the error-retry path (AddAfter bypasses the limiter by design). Arrivals that coincide exactly with a pending deadline are skipped (order undefined).",
-    "rule": "corpus; exhaustive subsets (<=4 quick / <=6 thorough) of a 12-point grid around multiples of the interval for the reload limiter; subsets of an 8-point grid x all item assignments for the reconcile limiter; random bursts/gaps/boundary arrivals for random intervals and waits from VERIF_SEED. non-trivial = at least two arrivals and no arrival/deadline tie; distinct = distinct input line",
-    "exhaustive": {"quick": False, "thorough": False},
-    "trusted": ["client-go workqueue semantics as modelled in HapVerif.C13 (arrive/fire)", "testing/synctest virtual clock (go1.26.8)"],
-    "modelled": ["client-go delaying queue = earliest deadline per item; run is instantaneous", "time.Time zero value = 'none'"],
-    "assumptions": ["reloads/reconciles succeed (the retry path uses AddAfter and deliberately bypasses the limiter)", "timers fire at their deadline (latency not modelled)"],
-}
-
+REGISTRY = {}
+for _f in sorted(glob.glob(os.path.join(_D, "C*.json"))):
+    REGISTRY[os.path.basename(_f)[:-5]] = json.load(open(_f))
 NOT_APPLICABLE = {}
+_na = os.path.join(_D, "not_applicable.json")
+if os.path.exists(_na):
+    NOT_APPLICABLE = json.load(open(_na))
